@@ -4,12 +4,11 @@ namespace RlModel
 namespace Csv
 open V19
 
-/-- the options under which the codec is proved to round-trip -/
+/-- the options under which the codec is proved to round-trip: any ESCAPE is fine since c296646 -/
 structure Opts.Good (o : Opts) : Prop where
   dq : o.delim ≠ o.quote
   dterm : isTerm o.delim = false
   qterm : isTerm o.quote = false
-  noesc : o.escape = none
 
 theorem runSt_append (o : Opts) (s : St) (xs ys : Bytes) :
     runSt o s (xs ++ ys) = runSt o (runSt o s xs) ys := by
@@ -23,8 +22,8 @@ theorem runSt_nil (o : Opts) (s : St) : runSt o s [] = s := rfl
 theorem not_special {o : Opts} {b : UInt8} (h : isSpecial o b = false) :
     b ≠ o.delim ∧ b ≠ o.quote ∧ isTerm b = false := by
   simp only [isSpecial, Bool.or_eq_false_iff, beq_eq_false_iff_ne, ne_eq] at h
-  refine ⟨h.1.1.1, h.1.1.2, ?_⟩
-  simp [isTerm, h.1.2, h.2]
+  refine ⟨h.1.1.1.1, h.1.1.1.2, ?_⟩
+  simp [isTerm, h.1.1.2, h.1.2]
 
 /-- unquoted body: plain bytes are copied -/
 theorem run_inField (o : Opts) : ∀ (f acc : Bytes) (cur : List Bytes) (out : List (List Bytes)),
@@ -40,26 +39,58 @@ theorem run_inField (o : Opts) : ∀ (f acc : Bytes) (cur : List Bytes) (out : L
     rw [this, run_inField o f (b :: acc) cur out (by simpa [needsQuote] using h.2)]
     simp
 
-/-- quoted body: doubled quotes collapse, everything else is copied -/
-theorem run_inQuoted (o : Opts) (hesc : o.escape = none) :
+theorem wesc_cases (o : Opts) :
+    (o.wesc = none ∧ (o.escape = none ∨ o.escape = some o.quote)) ∨
+    (∃ e, o.wesc = some e ∧ o.escape = some e ∧ e ≠ o.quote) := by
+  unfold Opts.wesc
+  cases h : o.escape with
+  | none => left; simp
+  | some e =>
+    by_cases he : e = o.quote
+    · left; simp [he]
+    · right; exact ⟨e, by simp [he], rfl, he⟩
+
+/-- quoted body: doubled quotes collapse / escaped bytes are un-escaped, everything else is copied -/
+theorem run_inQuoted (o : Opts) :
     ∀ (f acc : Bytes) (cur : List Bytes) (out : List (List Bytes)),
     runSt o ⟨.inQuoted, acc, cur, out⟩ (quoteBody o f) = ⟨.inQuoted, f.reverse ++ acc, cur, out⟩
   | [], acc, cur, out => by simp [runSt, quoteBody]
   | b :: f, acc, cur, out => by
+    have ih := run_inQuoted o f (b :: acc) cur out
+    have fin : (⟨.inQuoted, f.reverse ++ b :: acc, cur, out⟩ : St) =
+        ⟨.inQuoted, (b :: f).reverse ++ acc, cur, out⟩ := by simp
     unfold quoteBody
-    by_cases hq : b = o.quote
-    · rw [if_pos hq, runSt_cons, runSt_cons]
-      have h1 : step o ⟨.inQuoted, acc, cur, out⟩ b = ⟨.quoteInQuoted, acc, cur, out⟩ := by
-        simp [step, hq]
-      have h2 : step o ⟨.quoteInQuoted, acc, cur, out⟩ b = ⟨.inQuoted, b :: acc, cur, out⟩ := by
-        simp [step, hq]
-      rw [h1, h2, run_inQuoted o hesc f (b :: acc) cur out]
-      simp
-    · rw [if_neg hq, runSt_cons]
-      have h1 : step o ⟨.inQuoted, acc, cur, out⟩ b = ⟨.inQuoted, b :: acc, cur, out⟩ := by
-        simp [step, hq, hesc]
-      rw [h1, run_inQuoted o hesc f (b :: acc) cur out]
-      simp
+    rcases wesc_cases o with ⟨hw, hesc⟩ | ⟨e, hw, hesc, hne⟩
+    · simp only [hw]
+      by_cases hq : b = o.quote
+      · rw [if_pos hq, runSt_cons, runSt_cons]
+        have h1 : step o ⟨.inQuoted, acc, cur, out⟩ b = ⟨.quoteInQuoted, acc, cur, out⟩ := by
+          simp [step, hq]
+        have h2 : step o ⟨.quoteInQuoted, acc, cur, out⟩ b = ⟨.inQuoted, b :: acc, cur, out⟩ := by
+          simp [step, hq]
+        rw [h1, h2, ih, fin]
+      · rw [if_neg hq, runSt_cons]
+        have h1 : step o ⟨.inQuoted, acc, cur, out⟩ b = ⟨.inQuoted, b :: acc, cur, out⟩ := by
+          rcases hesc with hesc | hesc
+          · simp [step, hq, hesc]
+          · have : ¬ (o.quote = b) := fun h => hq h.symm
+            simp [step, hq, hesc, this]
+        rw [h1, ih, fin]
+    · simp only [hw]
+      have hne' : ¬ (o.quote = e) := fun h => hne h.symm
+      by_cases hq : b = o.quote ∨ b = e
+      · rw [if_pos hq, runSt_cons, runSt_cons]
+        have h1 : step o ⟨.inQuoted, acc, cur, out⟩ e = ⟨.escInQuoted, acc, cur, out⟩ := by
+          simp [step, hne, hesc]
+        have h2 : step o ⟨.escInQuoted, acc, cur, out⟩ b = ⟨.inQuoted, b :: acc, cur, out⟩ := by
+          simp [step]
+        rw [h1, h2, ih, fin]
+      · rw [if_neg hq, runSt_cons]
+        have hq1 : ¬ b = o.quote := fun h => hq (Or.inl h)
+        have hq2 : ¬ e = b := fun h => hq (Or.inr h.symm)
+        have h1 : step o ⟨.inQuoted, acc, cur, out⟩ b = ⟨.inQuoted, b :: acc, cur, out⟩ := by
+          simp [step, hq1, hesc, hq2]
+        rw [h1, ih, fin]
 
 /-- the reader state after the text of field `f`, started in `StartField` -/
 def afterField (o : Opts) (f : Bytes) (cur : List Bytes) (out : List (List Bytes)) : St :=
@@ -75,7 +106,7 @@ theorem run_field (o : Opts) (g : o.Good) (f : Bytes) (cur : List Bytes) (out : 
     rw [List.cons_append, runSt_cons]
     have h1 : step o ⟨.startField, [], cur, out⟩ o.quote = ⟨.inQuoted, [], cur, out⟩ := by
       simp [step, stepStartField]
-    rw [h1, runSt_append, run_inQuoted o g.noesc f [] cur out, runSt_cons, runSt_nil]
+    rw [h1, runSt_append, run_inQuoted o f [] cur out, runSt_cons, runSt_nil]
     simp [step]
   · have hn' : needsQuote o f = false := by simpa using hn
     simp only [hn', Bool.false_eq_true, if_false]
